@@ -433,10 +433,10 @@ func liveTree(store *chain.DBStore, img kvx.Image, n uint64) map[string][]byte {
 // obsStore is the Store handed to the Manager: the real DBStore, with ApplyBlock / RevertBlock
 // observed.
 type obsStore struct {
-	*chain.DBStore
-	before func(apply bool, s consensus.State, blockID types.BlockID)
-	after  func(apply bool, s consensus.State, blockID types.BlockID, ds []MDiff, panicked bool)
-	ids    *IDs
+	chain.Store // the real *chain.DBStore, or a chainx.ProbeStore over it
+	before      func(apply bool, s consensus.State, blockID types.BlockID)
+	after       func(apply bool, s consensus.State, blockID types.BlockID, ds []MDiff, panicked bool)
+	ids         *IDs
 	// onPanic receives the text of a panic (or memory fault) raised inside the real store call
 	onPanic func(msg string)
 }
@@ -458,7 +458,7 @@ func (o *obsStore) ApplyBlock(s consensus.State, cau consensus.ApplyUpdate) {
 			o.panicked(true, s, s.Index.ID, recover())
 		}
 	}()
-	o.DBStore.ApplyBlock(s, cau)
+	o.Store.ApplyBlock(s, cau)
 	done = true
 	o.after(true, s, s.Index.ID, DiffsOf(o.ids, cau), false)
 }
@@ -472,7 +472,7 @@ func (o *obsStore) RevertBlock(s consensus.State, cru consensus.RevertUpdate) {
 			o.panicked(false, s, id, recover())
 		}
 	}()
-	o.DBStore.RevertBlock(s, cru)
+	o.Store.RevertBlock(s, cru)
 	done = true
 	o.after(false, s, id, DiffsOf(o.ids, cru), false)
 }
@@ -491,7 +491,8 @@ type Rig struct {
 	RevResTaint bool              // a reverted block carried a revised-and-resolved contract
 	Panicked    bool
 	PanicMsg    string
-	V2Batches   int // batches submitted through AddValidatedV2Blocks
+	Probe       *chainx.ProbeStore // non-nil when the manager runs over the atomicity probe
+	V2Batches   int                // batches submitted through AddValidatedV2Blocks
 	// intermediate-tip supplement probes: after a store operation that leaves the tip at a height h
 	// with h % ProbeMod == ProbeRem (ProbeMod 0 = off)
 	ProbeMod, ProbeRem uint64
@@ -520,6 +521,9 @@ type twinInfo struct {
 	img kvx.Image
 }
 
+// ProbeNext makes the next rig run its manager over a chainx.ProbeStore.
+var ProbeNext bool
+
 // NewRig opens a fresh node over db.
 func NewRig(c *vh.Case, t *chainx.Tree, ids *IDs, decls map[int]*Decl, db chain.DB) (*Rig, error) {
 	return NewRigWith(c, t, ids, decls, db, func() (*chain.DBStore, consensus.State, error) {
@@ -534,10 +538,22 @@ func NewRigWith(c *vh.Case, t *chainx.Tree, ids *IDs, decls map[int]*Decl, db ch
 		return nil, err
 	}
 	r := &Rig{T: t, IDs: ids, Decls: decls, C: c, snaps: map[int]kvx.Image{}, applied: map[int][]MDiff{}, twins: map[int]*twinInfo{}}
-	os := &obsStore{DBStore: store, ids: ids, before: r.before, after: r.after, onPanic: func(m string) { r.PanicMsg = firstLine(m) }}
+	var inner chain.Store = store
+	if ProbeNext {
+		// the manager runs over the atomicity probe of chainx (see chainx/probe.go): while a
+		// submission is in progress, other goroutines ask the manager for its tip from inside the
+		// manager's own store calls and must not get an answer before the call returns
+		ProbeNext = false
+		r.Probe = &chainx.ProbeStore{DBStore: store}
+		inner = r.Probe
+	}
+	os := &obsStore{Store: inner, ids: ids, before: r.before, after: r.after, onPanic: func(m string) { r.PanicMsg = firstLine(m) }}
 	nd := &chainx.Node{Net: t.Net, DB: db, Store: store}
 	nd.CM = chain.NewManager(os, tip)
 	nd.CM.OnReorg(func(ci types.ChainIndex) { nd.Reorgs = append(nd.Reorgs, ci) })
+	if r.Probe != nil {
+		r.Probe.SetManager(nd.CM)
+	}
 	r.Node = nd
 	return r, nil
 }
@@ -935,7 +951,14 @@ func (r *Rig) Submit(batch []int) (res string) {
 			res = "panic"
 		}
 	}()
-	if err := r.Node.CM.AddBlocks(r.T.Get(batch)); err != nil {
+	var err error
+	if r.Probe != nil {
+		r.Probe.Writer("AddBlocks", func() { err = r.Node.CM.AddBlocks(r.T.Get(batch)) })
+		r.auditProbe(batch)
+	} else {
+		err = r.Node.CM.AddBlocks(r.T.Get(batch))
+	}
+	if err != nil {
 		return "err"
 	}
 	return "ok"
@@ -974,10 +997,24 @@ func (r *Rig) SubmitV2(batch []int) (res string) {
 	for i, id := range batch {
 		states[i] = r.T.Blocks[id].Full
 	}
-	if err := r.Node.CM.AddValidatedV2Blocks(r.T.Get(batch), states); err != nil {
+	var err error
+	if r.Probe != nil {
+		r.Probe.Writer("AddValidatedV2Blocks", func() { err = r.Node.CM.AddValidatedV2Blocks(r.T.Get(batch), states) })
+		r.auditProbe(batch)
+	} else {
+		err = r.Node.CM.AddValidatedV2Blocks(r.T.Get(batch), states)
+	}
+	if err != nil {
 		return "err"
 	}
 	return "ok"
+}
+
+// auditProbe reports what the atomicity probe saw during the last submission.
+func (r *Rig) auditProbe(batch []int) {
+	for _, f := range r.Probe.Found() {
+		r.C.Oracle("manager-readable-in-the-middle-of-a-change", "batch %v: %s (every exported Manager method holds the manager's lock for its whole duration: another caller must not get an answer while a submission is inside a store call)", batch, f)
+	}
 }
 
 // SubmitVia uses the pre-validated path when v2 is set (and the batch qualifies), AddBlocks otherwise.
